@@ -18,7 +18,7 @@ KEYWORDS = ['$Label1', 'custom', '$Junk']
 DATES = ['15-Jan-2024 10:00:00 +0200', ' 1-Feb-2023 23:59:59 -0800',
          '31-Dec-2019 00:00:00 +0000', '29-Feb-2024 12:30:00 +0530',
          ' 1-Jan-0999 00:00:00 +0000', '31-Dec-1969 23:59:59 -1200',
-         '19-Jan-2038 03:14:08 +0000']
+         '19-Jan-2038 03:14:08 +0000', '01-Jan-2020 23:59:59 -0000']
 FETCHES = [['FLAGS'], ['UID', 'FLAGS'], ['BODY[]'], ['BODY.PEEK[]'],
            ['RFC822'], ['RFC822.HEADER'], ['RFC822.TEXT'], ['BODY[HEADER]'],
            ['BODY[TEXT]'], ['BODY[1]'], ['BODY.PEEK[TEXT]'],
